@@ -2,7 +2,7 @@ SPEC = {
     "id": "C13",
     "components": [
         {"comp": "mtud", "module": "QV.Model.Mtud", "quick": 1500, "thorough": 40000},
-        {"comp": "sim_c13", "module": "QV.Sys.MonC13", "quick": 60, "thorough": 1500},
+        {"comp": "sim_c13", "module": "QV.Sys.MonC13", "quick": 120, "thorough": 1500},
     ],
     "assumptions": [
         "debug build semantics (debug_assert!/overflow checks are panics); release-build wrapping is not modelled",
